@@ -125,7 +125,16 @@ class Interp:
         self.max_alloc = 1 << 28
         self.ext = {}           # extension state used by stubs
         self.assumed_nonzero = 0
+        self.fork_sites = [] if __import__('os').environ.get('VERIF_FORK_SITES') else None
         R.ST.context = lambda: list(self.pc)
+        self._zd_seen = {}
+    def enable_div_zero_fork(self):
+        def hook(b):
+            e = z3.simplify(R.cmp(b, 0, 'eq'))
+            if z3.is_false(e): return False
+            if z3.is_true(e): return True
+            return self.decide(e)
+        R.ST.zero_div = hook
     # ------------------------------------------------------------ solver
     def _solver(self):
         if self.solver is None:
@@ -183,6 +192,7 @@ class Interp:
         if self.dpos < len(self.decisions): d = self.decisions[self.dpos]
         else: d = True; self.decisions.append(True)
         self.dpos += 1
+        if self.fork_sites is not None: self.fork_sites.append((self.stack[-1] if self.stack else '?')[:60])
         self.add_pc(c if d else nc)
         return d
     def concretize(self, x, what='index'):
@@ -866,7 +876,17 @@ class Interp:
                 if op == 'fmul': return R.mul(a, b)
                 if op == 'fdiv':
                     return R.div(a, b)
+            except R.DivByZero as dz:
+                # IEEE semantics of x / 0 on the branch where the divisor is zero
+                num = dz.num
+                if num.is_const(): nv = num.const_value(); return float('nan') if nv == 0 else (INF if nv > 0 else -INF)
+                if self.decide(R.cmp(num, 0, 'eq')): return float('nan')
+                return INF if self.decide(R.cmp(num, 0, 'gt')) else -INF
             except ZeroDivisionError:
+                if self.ext.get('div_zero') == 'fork':
+                    if isinstance(a, RV):
+                        if self.decide(R.cmp(a, 0, 'eq')): return float('nan')
+                        return INF if self.decide(R.cmp(a, 0, 'gt')) else -INF
                 raise Vacuous('symbolic real divided by an exact zero: singular configuration, excluded like every zero divisor')
             raise Unsupported('frem on symbolic real')
         if isinstance(a, FB) or isinstance(b, FB): raise Unsupported('arithmetic on opaque symbolic double bits')
@@ -995,6 +1015,15 @@ class Interp:
             if bits == 1 and not is_intmode(x, y): return sv(z3.If(cb, to_bool(x), to_bool(y)))
             if is_intmode(x, y): return sv(z3.If(cb, to_int(x, bits), to_int(y, bits)))
             return sv(z3.If(cb, to_bv(x, bits), to_bv(y, bits)))
+        if ty == 'f64' and not isinstance(x, (FB, tuple, list)) and not isinstance(y, (FB, tuple, list)) \
+           and not (isinstance(x, float) or isinstance(y, float)) \
+           and not (isinstance(x, RV) and x.tan) and not (isinstance(y, RV) and y.tan):
+            # real-valued select without forking: fresh symbol r with (c -> r == x) and (not c -> r == y)
+            self._nsel = getattr(self, '_nsel', 0) + 1
+            r = z3.Real('sel!%d' % self._nsel)
+            xe = R.lift(x); ye = R.lift(y)
+            self.add_pc(z3.And(z3.Implies(cb, R.cmp(RV.term(r), xe, 'eq')), z3.Implies(z3.Not(cb), R.cmp(RV.term(r), ye, 'eq'))))
+            return RV.term(r)
         return x if self.decide(cb) else y
     # ------------------------------------------------------------ call dispatch
     def do_call(self, name, args):
